@@ -480,6 +480,11 @@ func keyBytes() {
 				bad++
 			}
 		}
+		// U+FFFD REPLACEMENT CHARACTER is valid text where the set has it
+		if e, ok := roundTrips(enc, utf8.RuneError); ok && len(e) > 1 {
+			check([]rune{utf8.RuneError}, "char")
+			check([]rune{'a', utf8.RuneError, 'b'}, "text")
+		}
 		// byte-driven complement: two-byte characters that decode to several runes (Big5 88 62:
 		// a letter and its combining macron) - all of their runes, in order
 		if enc != nil {
